@@ -15,9 +15,11 @@ MANIFEST = {
             "drivers; too small U / L-subscript estimates must stop with the library's diagnostic. Inputs: patterns without "
             "zero-free diagonal, dense rows/columns, thresholds 0..1, random forced pivot orders (usepr), static and dynamic "
             "supernode storage, w/relax/maxsuper sweeps, 1..8 threads with seeded perturbation.",
-    "note": "PARTIAL by nature: colcnt_dominates (George-Ng row-merge bound >= |L(:,k)| for every pivot sequence) and the "
-            "qrnzcnt algorithm are not proved/modelled: monitored per run. C memory safety in general is a runtime property "
-            "(ASan samples it). Trusted: Coq kernel, extraction, hooks, AddressSanitizer.",
+    "note": "PARTIAL by nature: the George & Ng bound is proved for the elimination model on patterns (any pivots, zero-free "
+            "diagonal) and the row-merge counts are tied exactly to qrnzcnt's colcnt_h and to the returned L of every run "
+            "(extracted rm_colcounts); the qrnzcnt algorithm itself (Gilbert-Ng-Peyton skeleton counting) is not modelled line by "
+            "line. C memory safety in general is a runtime property (ASan samples it). Trusted: Coq kernel, extraction, hooks, "
+            "AddressSanitizer.",
     "technique": "Coq proof (allocator arithmetic, slot checker) + exact PresetMap correspondence + per-allocation slot monitor + ASan",
 }
 
